@@ -35,6 +35,9 @@ pub(crate) struct ReqSocket {
   /// separated by awaits, so without it two racing calls could both pass the check.
   op_lock: tokio::sync::Mutex<()>,
   reply_available_notifier: Arc<Notify>,
+  /// Frames of the current reply that recv() has not handed out yet (recv() returns one frame per
+  /// call; the ingress engine delivers whole messages).
+  reply_rest: ParkingLotMutex<Option<FrameBatch>>,
   pipe_read_to_endpoint_uri: RwLock<HashMap<usize, String>>,
 }
 
@@ -49,12 +52,25 @@ impl ReqSocket {
       state: ParkingLotMutex::new(ReqState::ReadyToSend),
       op_lock: tokio::sync::Mutex::new(()),
       reply_available_notifier: Arc::new(Notify::new()),
+      reply_rest: ParkingLotMutex::new(None),
       pipe_read_to_endpoint_uri: RwLock::new(HashMap::new()),
     }
   }
 
   fn core_state_read(&self) -> RwLockReadGuard<'_, CoreState> {
     self.core.core_state.read()
+  }
+
+  /// First frame of a reply for recv(); the remaining frames wait in `reply_rest`.
+  fn first_frame_parking_rest(&self, mut payload: FrameBatch) -> Msg {
+    if payload.is_empty() {
+      return Msg::new();
+    }
+    let first = payload.remove(0);
+    if !payload.is_empty() {
+      *self.reply_rest.lock() = Some(payload);
+    }
+    first
   }
 
   fn process_incoming_zmtp_message_for_req(
@@ -134,6 +150,8 @@ impl ISocket for ReqSocket {
         ));
       }
     }
+    // a new round: nothing of an earlier reply may leak into it
+    *self.reply_rest.lock() = None;
 
     #[cfg(rzmq_verif)]
     crate::verif::sched::gate("req.send.checked").await;
@@ -200,6 +218,24 @@ impl ISocket for ReqSocket {
 
     let _op = self.op_lock.lock().await;
 
+    // The reply being read frame by frame comes first; its last frame completes the round.
+    {
+      let mut rest_guard = self.reply_rest.lock();
+      let next = match rest_guard.as_mut() {
+        Some(rest) if !rest.is_empty() => Some((rest.remove(0), rest.is_empty())),
+        _ => None,
+      };
+      if let Some((frame, last)) = next {
+        if last {
+          *rest_guard = None;
+          drop(rest_guard);
+          *self.state.lock() = ReqState::ReadyToSend;
+          self.reply_available_notifier.notify_waiters();
+        }
+        return Ok(frame);
+      }
+    }
+
     {
       let op_state_guard = self.state.lock();
       if !matches!(*op_state_guard, ReqState::ExpectingReply { .. }) {
@@ -225,8 +261,8 @@ impl ISocket for ReqSocket {
           match self.ingress_engine.recv_logical_message(Some(Duration::ZERO)).await {
             Ok((_, batch)) => {
               match self.process_incoming_zmtp_message_for_req(0, batch) {
-                Ok(mut payload) => {
-                  received_msg_result = Ok(if payload.is_empty() { Msg::new() } else { payload.remove(0) });
+                Ok(payload) => {
+                  received_msg_result = Ok(self.first_frame_parking_rest(payload));
                 }
                 Err(e) => received_msg_result = Err(e),
               }
@@ -249,7 +285,7 @@ impl ISocket for ReqSocket {
         received_msg_result = match res {
           Ok((_, batch)) => {
             match self.process_incoming_zmtp_message_for_req(0, batch) {
-              Ok(mut payload) => Ok(if payload.is_empty() { Msg::new() } else { payload.remove(0) }),
+              Ok(payload) => Ok(self.first_frame_parking_rest(payload)),
               Err(e) => Err(e),
             }
           }
@@ -292,6 +328,15 @@ impl ISocket for ReqSocket {
     }
 
     let _op = self.op_lock.lock().await;
+
+    // The rest of a reply that recv() started comes first and completes the round.
+    if let Some(rest) = self.reply_rest.lock().take() {
+      if !rest.is_empty() {
+        *self.state.lock() = ReqState::ReadyToSend;
+        self.reply_available_notifier.notify_waiters();
+        return Ok(rest);
+      }
+    }
 
     {
       let state_guard = self.state.lock();
